@@ -573,10 +573,26 @@ func (e *OpEngine) numericCompare(got, want sym.Expr, dims []sym.Poly) (int, str
 	symTrials := []float64{1.25, -0.5, 0, 2.5, -3, 0.01}
 	for trial := 0; trial < 46; trial++ {
 		lo, hi := int64(1), int64(3+trial%3)
+		// vary the model: prefer a different lower bound per atom and trial, fall back to any model
 		bounds := map[string][2]int64{}
+		ai := 0
+		seenAtom := map[string]bool{}
+		for _, c := range cs {
+			for _, a := range c.P.Atoms() {
+				if !seenAtom[a] {
+					seenAtom[a] = true
+					pref := 1 + int64((trial+ai*3)%4)
+					bounds[a] = [2]int64{pref, pref + 4}
+					ai++
+				}
+			}
+		}
 		mdl, ok := sym.Model(cs, lo, hi, bounds)
 		if !ok {
-			mdl, ok = sym.Model(cs, -2, 6, bounds)
+			mdl, ok = sym.Model(cs, lo, hi, nil)
+		}
+		if !ok {
+			mdl, ok = sym.Model(cs, -2, 6, nil)
 			if !ok {
 				continue
 			}
